@@ -438,6 +438,8 @@ type Contract struct {
 	Results    []string
 	Requires   []*Clause
 	Ensures    []*Clause
+	Assumes    []*Clause // assumed at entry when verifying the body; not an obligation at call sites
+	PanicsOnlyIf []*Clause // condition that must hold at every explicit panic statement
 	Decreases  *Clause
 	Assigns    []string // heap keys ("grammar.MatchValue.Converted"), "*" = everything
 	HasAssigns bool
@@ -465,7 +467,7 @@ type ContractSet struct {
 	Files  []string
 }
 
-var clauseHead = regexp.MustCompile(`^(func|external|lemma|requires|ensures|invariant|decreases|assigns|loop|trusted|may_panic|fresh|dead_returns|var|hyp|concl|fuel|opaque)\b(\[[^\]]*\])?\s*(.*)$`)
+var clauseHead = regexp.MustCompile(`^(func|external|lemma|requires|ensures|assume|panics_only_if|invariant|decreases|assigns|loop|trusted|may_panic|fresh|dead_returns|var|hyp|concl|fuel|opaque)\b(\[[^\]]*\])?\s*(.*)$`)
 
 func loadContracts(files []string) (*ContractSet, error) {
 	cs := &ContractSet{ByKey: map[string]*Contract{}}
@@ -556,7 +558,7 @@ func (cs *ContractSet) parseFile(file, src string) error {
 			key := m[1]
 			if !strings.Contains(key, ".") && defPkg != "" {
 				key = defPkg + "." + key
-			} else if defPkg != "" && !isSpec && !strings.HasPrefix(key, defPkg+".") && strings.Count(key, ".") == 1 && strings.ToUpper(key[:1]) == key[:1] {
+			} else if first := strings.SplitN(key, ".", 2)[0]; defPkg != "" && !isSpec && strings.Count(key, ".") == 1 && first != "bexpr" && first != "grammar" {
 				// Type.Method in the default package
 				key = defPkg + "." + key
 			}
@@ -660,6 +662,19 @@ func (cs *ContractSet) parseFile(file, src string) error {
 			}
 			curLoop = &LoopContract{Ordinal: n}
 			cur.Loops[n] = curLoop
+		case "assume", "panics_only_if":
+			if cur == nil {
+				return fmt.Errorf("%s:%d: %s outside func", file, r.line, r.head)
+			}
+			c, err := mk(r.head)
+			if err != nil {
+				return err
+			}
+			if r.head == "assume" {
+				cur.Assumes = append(cur.Assumes, c)
+			} else {
+				cur.PanicsOnlyIf = append(cur.PanicsOnlyIf, c)
+			}
 		case "requires", "ensures", "invariant", "decreases":
 			if cur == nil {
 				return fmt.Errorf("%s:%d: %s outside func", file, r.line, r.head)
